@@ -117,6 +117,28 @@ func GenPlan(r *rand.Rand, ncells int, pf Profile, tag string) *PNode {
 	if pf.Cache && r.Intn(3) == 0 {
 		all[r.Intn(len(all))].TimerU = 1000 + r.Intn(4000)
 	}
+	// optional children requested with an already (or soon) cancelled derived
+	// context in some early runs; the error is tolerated
+	for _, n := range append([]*PNode{root}, l1...) {
+		if len(n.Kids) == 0 || r.Intn(3) != 0 {
+			continue
+		}
+		n.CancelAt = map[int]int{}
+		for i := 0; i < 1+r.Intn(3); i++ {
+			n.CancelAt[1+r.Intn(6)] = 2*(1+r.Intn(len(n.Kids))) + r.Intn(3)/2
+		}
+	}
+	// expirations of different lengths: a short one registered by the root
+	// first, a longer one in a cached child that also reads a cell without
+	// registering it (a value with a time-to-live)
+	if pf.Cache && len(all) > 1 && r.Intn(3) == 0 {
+		n := all[1+r.Intn(len(all)-1)]
+		n.AfterU = 2000 + r.Intn(3000)
+		n.TTL = []int{r.Intn(ncells)}
+		if r.Intn(4) != 0 {
+			root.AfterU = 1000 + r.Intn(n.AfterU-1000)
+		}
+	}
 	// a goroutine that outlives its computation and registers a dependency late
 	if r.Intn(4) == 0 {
 		n := all[r.Intn(len(all))]
@@ -321,11 +343,20 @@ func GenMatrix(r *rand.Rand, m MatrixCell, pf Profile) *Scenario {
 	}
 	root0.KidOn[len(root0.Kids)-1] = 5
 	root0.Fail = map[int]string{2 + r.Intn(2): "retry"}
+	// kids a (index 0) and b (index 1) are requested with a cancelled derived
+	// context in two early runs; later runs use the live context again
+	root0.CancelAt = map[int]int{4: 2*1 + r.Intn(2), 5 + r.Intn(2): 2 * 2}
 	if pf.Cache {
 		if r.Intn(2) == 0 {
 			root0.TimerU = 1500 + r.Intn(3000)
 		}
-		if r.Intn(3) == 0 {
+		if r.Intn(2) == 0 {
+			// the root's short expiration is registered first, then cached
+			// child b's longer one; b also reads cell 0 as a TTL value
+			root0.AfterU = 1000 + r.Intn(1000)
+			b.AfterU = root0.AfterU * (2 + r.Intn(3))
+			b.TTL = []int{0}
+		} else if r.Intn(3) == 0 {
 			b.AfterU = 2000 + r.Intn(3000)
 		}
 	}
